@@ -10,7 +10,8 @@ use serde_json::{json, Value};
 
 pub const CHECK: Check = Check { id: "C01", level: "exploration", flavours: &["scaled", "prod"], run, replay };
 
-const RULE: &str = "cases = generated writer programs (files x pieces x interleaving x layers x level x recipients), \
+const RULE: &str = "cases = generated writer programs (files x pieces x interleaving x layers x level x recipients x 0..4 flush() calls between \
+the other calls x 8 histories of configuration calls reaching the same configuration), \
 executed through ArchiveWriter and read back with ArchiveReader using one recipient key among decoys; oracle = \
 in-memory model (names, bytes, size, SHA-256). Non-trivial = program with >= 2 files one of which has >= 2 \
 non-contiguous runs, or with a piece end / file end / stream end within +-1 of an encryption-chunk or \
@@ -82,7 +83,7 @@ fn run(ctx: &Ctx) -> Report {
     rep.assume("model = BTreeMap<name, bytes> maintained by the harness; SHA-256 from the sha2 crate");
     rep.assume("production flavour: programs capped at 9 MiB of content (1 MiB at brotli quality >= 9)");
     if SCALED {
-        explore(&mut rep, ctx, "random", ctx.n(12_000, 300_000), || prog::program(ProgParams::default()), oracle);
+        explore(&mut rep, ctx, "random", ctx.n(12_000, 300_000), || prog::program(ProgParams { flush_max: 4, ..ProgParams::default() }), oracle);
         explore(
             &mut rep,
             ctx,
@@ -111,7 +112,7 @@ fn run(ctx: &Ctx) -> Report {
             );
         }
     } else {
-        explore(&mut rep, ctx, "random", ctx.n(100, 2_000), || prog::program(ProgParams::default()), oracle);
+        explore(&mut rep, ctx, "random", ctx.n(100, 2_000), || prog::program(ProgParams { flush_max: 4, ..ProgParams::default() }), oracle);
         explore(
             &mut rep,
             ctx,
